@@ -57,6 +57,20 @@ def check(run, driver):
         for s in steps:
             meta.append(("step", full, XY[s], s))
             reqs.append({"op": "logistic_step", "r": num(full["r"]), "sigma": num(full["sigma"]), "M": mat(A.T), "x": vec(XY[s - 1])})
+    # ---- history: the returned matrix belongs to the caller; editing it in place must not affect a later identical call
+    for it in range(20 if thorough else 8):
+        cfg = dict(n=int(rng.integers(2, 12)), p=float(rng.choice([1.0, 0.5, rng.random()])), t=int(rng.integers(3, 30)), r=float(rng.choice([4.0, 3.7])),
+                   sigma=float(rng.choice([1.0, 0.5, rng.random()])), seed=int(rng.integers(0, 10**6)))
+        X1, A1 = S.logisic_dynamics(**cfg)
+        X1c, A1c = X1.copy(), A1.copy()
+        A1[A1 > 0] = 1.0; A1 *= 3.0; X1[:] = 7.0
+        X2, A2 = S.logisic_dynamics(**cfg)
+        run.case("history", cfg, True)
+        bad2 = ~np.isfinite(X2) | (X2 < 0) | (X2 > 1)
+        if bad2.any():
+            run.prop_fail("value outside [0,1] or not finite on a later identical call, after the caller edited the previously returned arrays in place", cfg, {"clause": "range", "history": True})
+        elif not (np.array_equal(X2, X1c) and np.array_equal(A2, A1c)):
+            run.corr_fail("history", cfg, "same series and matrix as the first call", "differs after the caller edited the returned arrays in place")
     resp = driver.run_sharded(reqs)
     for (kind, cfg, expect, s), r in zip(meta, resp):
         if "ok" not in r:
